@@ -672,10 +672,7 @@ func (p *Program) replayCall(fn *ssa.Function, mv modelVals) (code string, unsup
 			}
 		}
 		if b, ok := t.Underlying().(*types.Basic); ok && b.Info()&(types.IsString|types.IsInteger|types.IsBoolean) != 0 {
-			v := mv[Const("p."+prm.Name(), map[bool]string{true: SStr, false: SInt}[b.Info()&types.IsString != 0]).String()]
-			if b.Info()&types.IsBoolean != 0 {
-				v = mv[Const("p."+prm.Name(), SBool).String()]
-			}
+			v := mv["p."+prm.Name()]
 			tn := types.TypeString(t, func(pk *types.Package) string { return pk.Name() })
 			return fmt.Sprintf("%s(%s)", tn, goLit(orZero(v, b))), true
 		}
